@@ -40,7 +40,10 @@ ASSUMPTIONS = ["NoOverflow: every table entry fits int32 (|matrix|,|gap| <= 6 an
                "the pseudo -inf of the affine tables is modelled as `none`"]
 TECHNIQUE = ("Lean 4 proof (induction over alignment columns against a two-dimensional recurrence; refinement of the "
              "row-by-row table to the recurrence) + verified checker run on every actual output + correspondence")
-LEVEL_TEXT = ("proof, for every matrix / sequence pair, no length bound (56 theorems).  HEADLINE, one statement per gap kind, "
+LEVEL_TEXT = ("proof, for every matrix / sequence pair, no length bound (69 theorems; 13 of them are Gen obligations on facts "
+              "regenerated from the source on every run: get_trace_linear/affine transliterated and proved equal to the model's "
+              "tie rule for all scores, defaults, argument checks, table initialisation, the fill candidates and floors, start "
+              "selection, follow_trace order, score(), SubstitutionMatrix).  HEADLINE, one statement per gap kind, "
               "about the model of align_optimal (alignOptimalModel: table fill + reported score + start selection + "
               "traceback + [:max_number]): C08_align_optimal_lin (g <= 0, all three modes): the reported score is the "
               "maximum of the public align.score() over all valid alignments of the mode (upper bound + attained), every "
@@ -403,6 +406,7 @@ def gen_lean():
     ]
     body = ["/- REGENERATED on every run by harness/props/c08.py from sequence/align/{tracetable.pxd, tracetable.pyx, pairwise.pyx,",
             "   alignment.py, matrix.py}. Do not edit. -/",
+            "set_option linter.unusedVariables false",
             "namespace BiotiteModel.Gen.C08",
             "/-- `TraceDirectionLinear` members: (name, bit value). -/",
             "def traceLinear : List (String × Nat) := " + lst(lin),
